@@ -212,10 +212,11 @@ func decodeString(src *bufio.Reader, noQuotes bool) []byte {
 	length := decodeIntAdditionalType(src, minor)
 	len := int(length)
 	pbs := readNBytes(src, len)
-	result = append(result, pbs...)
 	if noQuotes {
-		return result
+		return append(result, pbs...)
 	}
+	// Same escaping as for text strings (and as the JSON encoder's AppendBytes).
+	result = decodeStringComplex(result, string(pbs), 0)
 	return append(result, '"')
 }
 func decodeStringToDataUrl(src *bufio.Reader, mimeType string) []byte {
